@@ -483,6 +483,13 @@ class C16(Plan):
     def verdict_name(self, r):
         return {58: 'listing-denotes-a-different-warrior', 59: 'listing-is-not-readable'}.get(r[0], str(r[0]))
 
+    def extra_monitor(self, ints, impl):
+        # record 78: the same listing through `gmars -A` under the flags / preset that describe the setting
+        for r in impl:
+            if r and r[0] == 78 and len(r) > 1 and r[1] in (1, 2):
+                return 'the-listing-printed-by-gmars-A-differs-from-the-listing-of-the-warrior' if r[1] == 1 else 'gmars-A-failed-on-a-listing-the-assembler-accepts'
+        return None
+
     def pretty(self, ints):
         n = ints[4]
         return dict(mode=ints[1], M=ints[2], start=ints[3], code=[VM.fmt_instr(tuple(ints[5 + 6 * j:11 + 6 * j])) for j in range(n)])
